@@ -4,9 +4,9 @@ from props import common, generic, tree_common as tc
 
 def run(rep):
     common.load_contracts()
-    from contracts.grouping import DELIMITER_CASES
+    from contracts.grouping import DELIMITER_CASES, MATCHER_SHAPE_CASES
     return generic.run_generic(
-        rep, [(tc.GT, 'new group'), (tc.GT, 'extend flag')] + tc.MATCHER_FUNCS + tc.JOINER_FUNCS[:1] + list(DELIMITER_CASES),
+        rep, [(tc.GT, 'new group'), (tc.GT, 'extend flag')] + tc.MATCHER_FUNCS + tc.JOINER_FUNCS[:1] + list(DELIMITER_CASES) + list(MATCHER_SHAPE_CASES),
         structural=[tc.pass_order, tc.grouping_frame, tc.identity_side_conditions],
         assumptions=['group_tokens(cls, open_idx, close_idx) creates ONE group that owns exactly tokens[open_idx..close_idx] '
                      '(proved): its first child is the opener and its last child the closer whenever the driver passes '
@@ -16,7 +16,10 @@ def run(rep):
                      'close_idx < len at every group_tokens call, the group ends with the visited closing token, every '
                      'sub-group of another class is descended into, no exception (proved).  That the popped position holds '
                      'the matching OPENER token (stack entries <-> tokens) is not expressed by the contract: that half, and '
-                     'the comparison with an independent stack matcher, is the bounded stand-in',
+                     'the comparison with an independent stack matcher, is the bounded stand-in; in addition _group_matching is '
+                     'executed on explicit token lists (nested parentheses x ( a ( b ) c ) y; unmatched ) a ( b; CASE WHEN a '
+                     'THEN b END y; a CASE inside a Parenthesis group) and must produce exactly the textbook pairs: these shape '
+                     'cases name no loop ordinal or local, so they keep deciding after a rewrite of the matcher',
                      'later passes never absorb a delimiter: _group groups no range that contains an element for which '
                      '_is_delimiter holds (proved, interval summary over the real guard), and _is_delimiter is verified per '
                      'class against the property\'s notion of a delimiter: the first child, and every leaf that matches the '
